@@ -724,10 +724,14 @@ lkcd_max_pfn_revalidate(kdump_ctx_t *ctx, struct attr_data *attr)
 
 	parent_ops = lkcdp->max_pfn_override.template.parent->ops;
 	parent_revalidate = parent_ops ? parent_ops->revalidate : NULL;
-	lkcdp->max_pfn_override.ops.revalidate = parent_revalidate;
 
 	if (res == KDUMP_OK) {
 		kdump_attr_value_t val;
+
+		/* The attribute stays invalid if the scan fails, so the
+		 * hook must stay in place, too.
+		 */
+		lkcdp->max_pfn_override.ops.revalidate = parent_revalidate;
 		val.number = lkcdp->max_pfn;
 		res = set_attr(ctx, attr, ATTR_DEFAULT, &val);
 	}
